@@ -32,6 +32,9 @@ def check(rep, ctx):
     R_K = rep.rule("C19-cache", "the cached factories are exactly the functools.cache-decorated entity_reader/entity_writer", floor=2)
     st = scan.module_state(ctx, SERIAL_MODULES)
     for s in st:
+        if s["kind"] == "module-container-readonly":
+            rep.note(f"{s['module']}: module-level container {s['name']} is never mutated anywhere in kio (a constant table)")
+            continue
         if s["kind"] == "nonlocal-store" and s["module"].startswith("kio.static") and s["function"].endswith("__init_subclass__"):
             continue
         rep.check(R_M, False, construct=f"{s['module']}:{s['function']}", stmt=s["stmt"],
